@@ -24,8 +24,8 @@ RULE = ('Generated panels (2-6 geos quick / 2-7 thorough; 8-20 greedy-only) wher
 ASSUMPTIONS = ['series tolerance 1e-12 x number of geos (summation order); derived values 1e-7..1e-9 relative; '
                'test outcomes compared exactly unless within 1e-9 of flipping']
 EXHAUSTIVE = {'quick': False, 'thorough': False}
-MINIMA = {'quick': {'searches_after_caller_edits': 80, 'referee_tests': 400, 'sig_level_below_half': 20, 'shared_data_searches': 40, 'designs_checked': 400, 'distinct_nontrivial': 50, 'truncated_window_cases': 30},
-          'thorough': {'searches_after_caller_edits': 800, 'referee_tests': 6000, 'sig_level_below_half': 200, 'shared_data_searches': 400, 'designs_checked': 6000, 'distinct_nontrivial': 600, 'truncated_window_cases': 400}}
+MINIMA = {'quick': {'dst_hourly_panels': 20, 'searches_after_caller_edits': 80, 'referee_tests': 400, 'sig_level_below_half': 20, 'shared_data_searches': 40, 'designs_checked': 400, 'distinct_nontrivial': 50, 'truncated_window_cases': 30},
+          'thorough': {'dst_hourly_panels': 200, 'searches_after_caller_edits': 800, 'referee_tests': 6000, 'sig_level_below_half': 200, 'shared_data_searches': 400, 'designs_checked': 6000, 'distinct_nontrivial': 600, 'truncated_window_cases': 400}}
 N = {'quick': 480, 'thorough': 4000}
 N_LARGE = {'quick': 16, 'thorough': 120}
 CASE_TIMEOUT = {'quick': 300, 'thorough': 900}
@@ -54,6 +54,7 @@ def run_case(spec):
   else:
     G = r.randrange(2, 7 if tier == 'quick' else 8)
     case = sl.make_case(r, g, G, id_style=r.choice(['intmix', 'numstr', 'int', 'str']),
+                        date_style=('dst_hourly' if spec['idx'] % 12 == 9 else None),
                         cls=('giant' if spec['idx'] % 12 == 5 else 'near_twins' if spec['idx'] % 12 == 7 else None),
                         focus=r.choice([None, 'ngeos', 'budget', 'share']),
                         elig_mode=r.choice(['mixed', 'mostly_ctx', 'mixed', 'none']))
@@ -77,6 +78,7 @@ def run_case(spec):
   truth = sl.Truth(case)
   counters = collections.Counter()
   counters['sig_level_below_half'] += kw.get('sig_level', 0.9) < 0.5
+  counters['dst_hourly_panels'] += spec['kind'] != 'large' and spec['idx'] % 12 == 9
   violations = []
   outcomes = []
   max_returned = 0
